@@ -189,7 +189,7 @@ _p(
     components=[comp.validators(["fx"]), comp.script("c16-real-graphs", "BOUNDED stand-in", ["{ROOT}/bounded/c16_realgraphs.py"])],
     bounded=["composition of the passes: every graph built from <= 3 (quick) / <= 4 (thorough) ops over {gelu, softmax, tanh} x {add, matmul} with arbitrary wiring, <= 2 / <= 3 ops over {user fn, gelu, tensor+scalar, scalar+tensor, layer_norm} x {iadd, torch.add, add} with a user replacement map, chains of 0-2 / 0-3 well-nested residual blocks (branches mlp / softmax / attention / unmapped; skip = input / residual output / plain sum; either operand order; tails none / linear / plain add / add of two), 2 (quick) / 2-3 (thorough) parallel residual towers of 1-2 chained blocks each on own or shared inputs merged by mul / plain add / matmul, 38 generic-node classes (incl. the exact calls nn.Softmax / GELU / LayerNorm / Embedding / Dropout / SiLU / RMSNorm / CrossEntropyLoss / MSELoss emit) x {later residual add or not} x {earlier part ends in opaque op / plain sum / residual add}; module-level torch_map must be left unchanged by every run", "_add_dependency_meta: every DAG with <= 4 / <= 5 nodes and <= 3 inputs per node, arguments nested in tuples / kwargs lists, x {fresh, recalculate over stale metadata, valid memo on half the nodes}", "_is_self_attention: branches of depth <= 3 with the softmax-class op at every position / absent / only upstream of the skip / on a side input", "real torch.fx graphs of the same families + 5 modules end to end through TorchDynamo against hand conversions (outputs, input and parameter gradients, weight re-initialisation)"],
     uncovered=["graphs outside the families (larger, not well-nested, call_module nodes, kwargs-passed add operands)", "TorchDynamo's tracing itself (graph breaks, which python constructs become which nodes)"],
-    explanation="DECIDED per node class (finite case analysis over every class of node the code distinguishes, in opaque surroundings; that the verdict carries over to arbitrary surroundings rests on the frame obligations and the locality argument of DESIGN.md 9.9, which is not machine-checked): _is_add(n) <=> call_function of a C builtin named add/iadd, pure; _unconstrain_node keeps the call well-formed however `constraint` was passed (positionally, by keyword, not at all), binds it to None iff the target is a Python function with such a parameter and the node a call_function, changes no other argument and no other node; each class of node is rewritten as the recipe prescribes (R1 user map first, then torch_map, same arguments; R2 residual split/add with tau 0.5 / 0.01, either operand order, iadd; R3 plain add -> U.add(..., constraint=None); R4 unconstrained iff no later residual add; R5 untouched) with everything else untouched, whatever the earlier part ends in (this is where the two defects F8/F9 lived). BOUNDED: dependency metadata == ancestors; _is_self_attention <=> the branch contains softmax/attention; the composition of the passes equals the recipe on every graph of the families; real fx + Dynamo.",
+    explanation="DECIDED per node class (finite case analysis over every class of node the code distinguishes, in opaque surroundings; that the verdict carries over to arbitrary surroundings rests on the frame obligations and the locality argument of DESIGN.md 9.9, which is not machine-checked): _is_add(n) <=> call_function of a C builtin named add/iadd, pure; _unconstrain_node keeps the call well-formed however `constraint` was passed (positionally, by keyword, not at all), binds it to None iff the target is a Python function with such a parameter and the node a call_function, changes no other argument and no other node; each class of node is rewritten as the recipe prescribes (R1 user map first, then torch_map, same arguments; R2 residual split/add with tau 0.5 / 0.01, either operand order, iadd; R3 plain add -> U.add(..., constraint=None); R4 unconstrained iff no later residual add; R5 untouched) with everything else untouched, whatever the earlier part ends in (this is where the two defects F8/F9 lived). PROVED FOR ALL DAGS (pyvc/setvc.py, inductive): the memoised recursion `recurse` of _add_dependency_meta returns and records exactly the ancestors, under a heap model of Python sets (aliasing visible), a recursion contract with a decreasing rank and an inductive loop invariant. BOUNDED: the outer loops of _add_dependency_meta and nested argument shapes (dependency metadata == ancestors on every DAG with <= 4 / <= 5 nodes); _is_self_attention <=> the branch contains softmax/attention; the composition of the passes equals the recipe on every graph of the families; real fx + Dynamo.",
 )
 
 _p(
